@@ -464,6 +464,9 @@ def _guard_child(fn, items, start, conn):
         pass
 
 
+_CONFIRMED_HANGS = [0]  # per process: hangs confirmed by a second run, over all guarded_map calls of this check
+
+
 def guarded_map(fn, items, per_item_timeout: float = 5.0, nproc: int = NCPU, max_timeouts: int = 4):
     """Map `fn` over `items` in child processes; an item that does not finish within the timeout yields {"timeout": True}.
     After `max_timeouts` timeouts the remaining items are skipped ({"skipped": True}): a few hanging inputs are a finding,
@@ -473,6 +476,8 @@ def guarded_map(fn, items, per_item_timeout: float = 5.0, nproc: int = NCPU, max
 
     n_timeouts = [0]
     tlock = threading.Lock()
+    if _CONFIRMED_HANGS[0] >= 2:
+        max_timeouts = min(max_timeouts, 2)  # a hang is already established in this run: keep later stages short
 
     ctx = mp.get_context("fork")
     n = len(items)
@@ -529,7 +534,7 @@ def guarded_map(fn, items, per_item_timeout: float = 5.0, nproc: int = NCPU, max
     confirmed = 0
     for i, r in enumerate(res):
         if isinstance(r, dict) and r.get("timeout"):
-            if confirmed >= 2:
+            if confirmed >= 2 or _CONFIRMED_HANGS[0] >= 2:
                 break
             parent, child = ctx.Pipe(duplex=False)
             p = ctx.Process(target=_guard_child, args=(fn, [items[i]], 0, child), daemon=True)
@@ -546,6 +551,7 @@ def guarded_map(fn, items, per_item_timeout: float = 5.0, nproc: int = NCPU, max
                 pass
             if not finished:
                 confirmed += 1
+                _CONFIRMED_HANGS[0] += 1
             p.kill()
             p.join()
             parent.close()
